@@ -148,3 +148,334 @@ pub fn op_enc(number: u16, words: &[&str]) -> String {
     };
     r
 }
+
+// ---------------------------------------------------------------- message-level oracles
+
+fn tokens_of(m: &Message) -> Option<(u16, Vec<Tok>)> {
+    let mut o = Vec::new();
+    let n = msgs::dump_message(m, &mut o)?;
+    Some((n, o))
+}
+
+fn floats_finite(t: &[Tok]) -> bool {
+    t.iter().all(|x| match x {
+        Tok::F32(b) => f32::from_bits(*b).is_finite(),
+        Tok::F64(b) => f64::from_bits(*b).is_finite(),
+        _ => true,
+    })
+}
+
+/// independent well-formedness of an emitted frame (C09)
+fn frame_wellformed(fr: &[u8], number: u16) -> Result<(), String> {
+    if fr.len() < 8 || fr.len() > 1029 {
+        return Err(format!("frame length {}", fr.len()));
+    }
+    if fr[0] != 0xd3 {
+        return Err("preamble".into());
+    }
+    if fr[1] & 0xfc != 0 {
+        return Err("reserved bits not zero".into());
+    }
+    let l = (((fr[1] & 3) as usize) << 8) | fr[2] as usize;
+    if l != fr.len() - 6 {
+        return Err(format!("length field {} payload {}", l, fr.len() - 6));
+    }
+    let n = ((fr[3] as u16) << 4) | (fr[4] as u16 >> 4);
+    if n != number {
+        return Err(format!("number on wire {} message {}", n, number));
+    }
+    let c = crc24q(&fr[..l + 3]);
+    let m = ((fr[l + 3] as u32) << 16) | ((fr[l + 4] as u32) << 8) | fr[l + 5] as u32;
+    if c != m {
+        return Err("checksum".into());
+    }
+    Ok(())
+}
+
+/// stable sort of 1059/1065 bias entries by satellite: the order the encoder imposes
+fn normalise_bias(n: u16, t: &[Tok]) -> Vec<Tok> {
+    if n != 1059 && n != 1065 {
+        return t.to_vec();
+    }
+    // tokens: 6 header ints, then Count, then (Int sat, Sig, F32)*
+    let pos = match t.iter().position(|x| matches!(x, Tok::Count(_))) {
+        Some(p) => p,
+        None => return t.to_vec(),
+    };
+    let mut entries: Vec<&[Tok]> = t[pos + 1..].chunks(3).collect();
+    entries.sort_by_key(|e| match e[0] {
+        Tok::Int(s) => s,
+        _ => 0,
+    });
+    let mut out = t[..pos + 1].to_vec();
+    for e in entries {
+        out.extend_from_slice(e);
+    }
+    out
+}
+
+/// C09 + C01 (first half) for a message value given as tokens
+pub fn oracle_enc(number: u16, words: &[&str]) -> String {
+    let m = match build_from_tokens(number, words) {
+        Some(m) => m,
+        None => return "BAD-OP".into(),
+    };
+    let mut b = MessageBuilder::new();
+    let fr = match b.build_message(&m) {
+        Ok(fr) => fr.to_vec(),
+        Err(_) => return "PASS refused".into(),
+    };
+    if let Err(e) = frame_wellformed(&fr, number) {
+        return format!("FAIL C09 {}", e);
+    }
+    // C01: decodes to the same type
+    let f = match MessageFrame::new(&fr) {
+        Ok(f) => f,
+        Err(e) => return format!("FAIL C09 own frame rejected {:?}", e),
+    };
+    let m1 = f.get_message();
+    if m1.number() != Some(number) {
+        return format!("FAIL C01 encoded frame decodes to {}", message_text(&m1).chars().take(60).collect::<String>());
+    }
+    // re-encode
+    let mut b2 = MessageBuilder::new();
+    let fr2 = match b2.build_message(&m1) {
+        Ok(x) => x.to_vec(),
+        Err(e) => return format!("FAIL C01 decoded message refused by the encoder: {:?}", e),
+    };
+    if fr2 != fr {
+        // allowed only if the input had duplicate keys or unrecognised bias signals; then twice-decoded equal
+        let m2 = MessageFrame::new(&fr2).map(|f| f.get_message());
+        match m2 {
+            Ok(m2) if m2 == m1 => {
+                if input_has_dups_or_unrecognised(number, &m) {
+                    return "PASS normalised".into();
+                }
+                return "FAIL C01 re-encoding differs from the first frame (input had no duplicate keys / unrecognised bias signals)".into();
+            }
+            _ => return "FAIL C01 twice-decoded messages differ".into(),
+        }
+    }
+    "PASS".into()
+}
+
+fn input_has_dups_or_unrecognised(number: u16, m: &Message) -> bool {
+    let (_, t) = match tokens_of(m) {
+        Some(x) => x,
+        None => return false,
+    };
+    // (satellite, signal) keys of bias lists / duplicate signals in 1230
+    let mut keys: Vec<String> = Vec::new();
+    let mut last_int: i128 = -1;
+    let mut unrec = false;
+    for x in &t {
+        match x {
+            Tok::Int(z) => last_int = *z,
+            Tok::Sig(b, a) => {
+                let k = if number == 1230 { format!("{}:{}", b, a) } else { format!("{}:{}:{}", last_int, b, a) };
+                keys.push(k);
+                let ok = match number {
+                    1059 => rtcm_rs::msg::GpsSigId::new(*b, *a).is_valid() && bias1059_known(*b, *a),
+                    1065 | 1230 => matches!((*b, *a), (1, 'C') | (1, 'P') | (2, 'C') | (2, 'P')),
+                    _ => true,
+                };
+                if !ok {
+                    unrec = true;
+                }
+            }
+            _ => {}
+        }
+    }
+    let n0 = keys.len();
+    keys.sort();
+    keys.dedup();
+    (number == 1059 || number == 1065 || number == 1230) && (unrec || keys.len() != n0)
+}
+
+fn bias1059_known(b: u8, a: char) -> bool {
+    matches!((b, a), (1, 'C') | (1, 'P') | (1, 'W') | (2, 'C') | (2, 'D') | (2, 'S') | (2, 'L') | (2, 'X') | (2, 'P') | (2, 'W') | (5, 'I') | (5, 'Q'))
+}
+
+/// C02 + C01 (second half) for a frame
+pub fn oracle_dec(frame: &[u8]) -> String {
+    let f = match MessageFrame::new(frame) {
+        Ok(f) => f,
+        Err(_) => return "PASS not a frame".into(),
+    };
+    let m = f.get_message();
+    #[allow(clippy::eq_op)]
+    if !(m == m) {
+        return "FAIL C02 decoded message is not equal to itself".into();
+    }
+    let (n, t) = match &m {
+        Message::Empty | Message::Corrupt | Message::MsgNotSupported(_) => return "PASS".into(),
+        m => match tokens_of(m) {
+            Some(x) => x,
+            None => return "FAIL C02 undocumented outcome".into(),
+        },
+    };
+    if Some(n) != f.message_number() {
+        return format!("FAIL C14 variant {} for frame number {:?}", n, f.message_number());
+    }
+    if !floats_finite(&t) {
+        return "FAIL C02 non-finite float in decoded message".into();
+    }
+    // fixed point: if the encoder accepts it, decoding its encoding gives an equal message
+    let mut b = MessageBuilder::new();
+    if let Ok(fr) = b.build_message(&m) {
+        let fr = fr.to_vec();
+        if let Err(e) = frame_wellformed(&fr, n) {
+            return format!("FAIL C09 {}", e);
+        }
+        match MessageFrame::new(&fr).map(|f| f.get_message()) {
+            Ok(m2) => {
+                let t2 = tokens_of(&m2).map(|x| x.1).unwrap_or_default();
+                if normalise_bias(n, &t2) != normalise_bias(n, &t) {
+                    return "FAIL C01 decoded message is not a fixed point of encode/decode".into();
+                }
+            }
+            Err(e) => return format!("FAIL C09 own frame rejected {:?}", e),
+        }
+    }
+    "PASS".into()
+}
+
+fn parse_msg(words: &[&str]) -> Option<Message> {
+    match words {
+        ["E"] => Some(Message::Empty),
+        ["C"] => Some(Message::Corrupt),
+        [u] if u.starts_with('U') => {
+            // MsgNotSupportedT has a public field
+            let n: u16 = u[1..].parse().ok()?;
+            Some(Message::MsgNotSupported(rtcm_rs::msg::message::MsgNotSupportedT { message_number: n }))
+        }
+        [n, rest @ ..] => build_from_tokens(n.parse().ok()?, rest),
+        [] => None,
+    }
+}
+
+fn split_semi<'a>(words: &'a [&'a str]) -> Vec<&'a [&'a str]> {
+    words.split(|w| *w == ";").collect()
+}
+
+fn res_text(r: Result<&[u8], RtcmError>) -> String {
+    match r {
+        Ok(fr) => hex(fr),
+        Err(e) => format!("ERR {:?}", e),
+    }
+}
+
+/// BUILDSEQ m1 ; m2 ; ... on one builder
+pub fn op_buildseq(words: &[&str]) -> String {
+    let msgs: Option<Vec<Message>> = split_semi(words).into_iter().map(parse_msg).collect();
+    let msgs = match msgs {
+        Some(m) => m,
+        None => return "BAD-OP".into(),
+    };
+    let mut b = MessageBuilder::new();
+    let mut out = Vec::new();
+    for m in &msgs {
+        let r = std::panic::catch_unwind(std::panic::AssertUnwindSafe(|| res_text(b.build_message(m))));
+        out.push(r.unwrap_or_else(|_| "PANIC".into()));
+    }
+    out.join(" ; ")
+}
+
+/// C12: the last build of the sequence equals the build by a fresh builder
+pub fn oracle_buildseq(words: &[&str]) -> String {
+    let msgs: Option<Vec<Message>> = split_semi(words).into_iter().map(parse_msg).collect();
+    let msgs = match msgs {
+        Some(m) => m,
+        None => return "BAD-OP".into(),
+    };
+    let mut b = MessageBuilder::new();
+    let mut last = String::new();
+    for m in &msgs {
+        let r = std::panic::catch_unwind(std::panic::AssertUnwindSafe(|| res_text(b.build_message(m))));
+        last = r.unwrap_or_else(|_| "PANIC".into());
+    }
+    let mut fresh = MessageBuilder::new();
+    let exp = res_text(fresh.build_message(msgs.last().unwrap()));
+    if last == exp {
+        "PASS".into()
+    } else {
+        format!("FAIL C12 used builder gives {} fresh builder gives {}", &last[..last.len().min(80)], &exp[..exp.len().min(80)])
+    }
+}
+
+// ---------------------------------------------------------------- text conversions
+use rtcm_rs::util::{ArrayString, Df88591String};
+
+fn string_of(cps: &[&str]) -> Option<String> {
+    cps.iter().map(|c| c.parse::<u32>().ok().and_then(char::from_u32)).collect()
+}
+
+macro_rules! with_n {
+    ($n:expr, $f:ident, $s:expr) => {
+        match $n {
+            1 => $f::<1>($s),
+            7 => $f::<7>($s),
+            8 => $f::<8>($s),
+            31 => $f::<31>($s),
+            32 => $f::<32>($s),
+            127 => $f::<127>($s),
+            255 => $f::<255>($s),
+            _ => "BAD-OP".to_string(),
+        }
+    };
+}
+
+fn str88591<const N: usize>(s: &str) -> String {
+    let v = Df88591String::<N>::from(s);
+    let bytes: Vec<u8> = v.iter().copied().collect();
+    let chars: Vec<String> = v.chars().map(|c| (c as u32).to_string()).collect();
+    format!("{} {}", hex(&bytes), chars.join(" ")).trim_end().to_string()
+}
+
+fn astr<const N: usize>(s: &str) -> String {
+    let v = ArrayString::<N>::from(s);
+    let st: &str = &v;
+    format!("{} {}", hex(st.as_bytes()), if std::str::from_utf8(st.as_bytes()).is_ok() { "valid" } else { "INVALID" })
+}
+
+pub fn op_str88591(n: usize, cps: &[&str]) -> String {
+    match string_of(cps) {
+        Some(s) => with_n!(n, str88591, &s),
+        None => "BAD-OP".into(),
+    }
+}
+
+pub fn op_astr(n: usize, cps: &[&str]) -> String {
+    match string_of(cps) {
+        Some(s) => with_n!(n, astr, &s),
+        None => "BAD-OP".into(),
+    }
+}
+
+/// C17 stated directly
+pub fn oracle_str88591(n: usize, cps: &[&str]) -> String {
+    let s = match string_of(cps) {
+        Some(s) => s,
+        None => return "BAD-OP".into(),
+    };
+    let got = with_n!(n, str88591, &s);
+    let exp_bytes: Vec<u8> = s.chars().take(n).map(|c| { let x = c as u32; if x >= 1 && x <= 255 { x as u8 } else { 0xa4 } }).collect();
+    let exp_chars: Vec<String> = exp_bytes.iter().map(|b| (*b as u32).to_string()).collect();
+    let exp = format!("{} {}", hex(&exp_bytes), exp_chars.join(" ")).trim_end().to_string();
+    if got == exp { "PASS".into() } else { format!("FAIL got {} expected {}", got, exp) }
+}
+
+pub fn oracle_astr(n: usize, cps: &[&str]) -> String {
+    let s = match string_of(cps) {
+        Some(s) => s,
+        None => return "BAD-OP".into(),
+    };
+    let got = with_n!(n, astr, &s);
+    let mut exp = String::new();
+    for c in s.chars() {
+        if exp.len() + c.len_utf8() > n { break; }
+        exp.push(c);
+    }
+    let e = format!("{} valid", hex(exp.as_bytes()));
+    if got == e { "PASS".into() } else { format!("FAIL got {} expected {}", got, e) }
+}
